@@ -384,7 +384,10 @@ fn oracle_inner(c: &Case, ctx: &mut Ctx, run: &mut Run, trace: &mut Vec<String>)
 		if cands.is_empty() && !open {
 			break;
 		}
+		let hb = run.sim.height_of(v);
 		run.mine(&mut stale, cands, true);
+		jo.scan(&run.sim, hb)?;
+		jo.mark_durable();
 	}
 	let used = run.sim.chain.height() - tk_height;
 	if used + 8 >= tk.contest_delay as u32 {
